@@ -115,6 +115,10 @@ pub fn op<K: Raw>(op: &str, a: &[&str]) -> String {
         "kmersb" => show_list(&K::kmers_from_bytes(&digits(a[0]))),
         "kmersa" => show_list(&K::kmers_from_ascii(a[0].as_bytes())),
         "extend" => show_k(&k(0).extend(n(1) as u8, if a[2] == "R" { Dir::Right } else { Dir::Left })),
+        "iter" => { let v: Vec<u8> = k(0).iter().collect(); show_digits(&v) }
+        "setimm" => { use debruijn::MerImmut; let x = k(0); let y = x.set(n(1), n(2) as u8); format!("{}|{}", show_k(&y), show_k(&x)) }
+        "setsliceimm" => { use debruijn::MerImmut; let x = k(0); let y = x.set_slice(n(1), n(2), u64::from_str_radix(a[3], 16).unwrap()); format!("{}|{}", show_k(&y), show_k(&x)) }
+        "meta" => { let x = k(0); format!("len={} empty={} k={} zero={}", x.len(), x.is_empty() as u8, K::k(), show_k(&K::empty())) }
         "getexts" => show_list(&k(0).get_extensions(debruijn::Exts::new(u8::from_str_radix(a[1], 16).unwrap()), if a[2] == "R" { Dir::Right } else { Dir::Left })),
         "hd1" => show_list(&debruijn::neighbors::KmerOneHammingIter::new(k(0)).collect::<Vec<K>>()),
         _ => panic!("bad op"),
@@ -174,11 +178,19 @@ fn ascii_noise(rng: &mut Rng, len: usize) -> String {
 
 pub fn gen_for(rng: &mut Rng, name: &str, k: usize, raw: u128) -> String {
     let ops = ["get", "set", "setslice", "extl", "extr", "rc", "tou64", "fromu64", "ham", "at", "gc", "tostr", "frombytes",
-               "fromascii", "minrc", "cmp", "kmersb", "kmersa", "setslice", "extr", "rc", "hd1", "getexts"];
+               "fromascii", "minrc", "cmp", "kmersb", "kmersa", "setslice", "extr", "rc", "hd1", "getexts", "extend", "iter", "setimm", "setsliceimm", "meta"];
     let op = *rng.pick(&ops);
     let other = bases_to_raw(&random_kmer_bases(rng, k));
     let args = match op {
         "get" => format!("{:x} {}", raw, rng.below(k)),
+        "extend" => format!("{:x} {} {}", raw, rng.below(4), if rng.chance(1, 2) { "L" } else { "R" }),
+        "iter" | "meta" => format!("{:x}", raw),
+        "setimm" => format!("{:x} {} {}", raw, rng.below(k), rng.below(4)),
+        "setsliceimm" => {
+            let pos = rng.below(k);
+            let n = rng.range(1, 32.min(k - pos));
+            format!("{:x} {} {} {:x}", raw, pos, n, rng.next())
+        }
         "set" => format!("{:x} {} {}", raw, rng.below(k), rng.below(4)),
         "setslice" => {
             let pos = rng.below(k);
